@@ -31,6 +31,8 @@ def run(ctx):
     # ... and __setstate__ of every kind on empty / small / full containers with a smaller and a larger new state
     for gi, (kind, nkeys, newn) in enumerate((k, n, m) for k in ("Bucket", "Set", "BTree", "TreeSet") for n in (0, 3, 16) for m in (5, 40)):
         grid.append((fams[gi % len(fams)], kind, nkeys, (4, 4), ("setstate", newn)))
+    grid += [("fs", "Bucket", n_, (4, 4), ("fromBytes", m_)) for n_ in (0, 3, 20) for m_ in (5, 40)]
+    grid += [(fn_, k_, n_, (2, 4), "insert-evicted") for fn_ in ("II", "OO") for k_ in ("BTree", "TreeSet") for n_ in (8, 19, 27, 40, 83)]
     grid += [("II", "Set", 16, (4, 4), "iand"), ("OO", "TreeSet", 16, (4, 4), "iand"), ("LL", "TreeSet", 64, (4, 4), "iand")]
     for it in range(len(grid) + ctx.n(80, 12000)):
         fn = rng.choice(fams)
@@ -44,7 +46,7 @@ def run(ctx):
         forced_n = None
         if isinstance(forced, tuple):
             forced, forced_n = forced
-        opname = forced or rng.choice(["insert", "insert", "update", "setstate", "union", "intersection", "difference", "multiunion", "merge", "pickle", "fromBytes", "iand"])
+        opname = forced or rng.choice(["insert", "insert", "update", "setstate", "union", "intersection", "difference", "multiunion", "merge", "pickle", "fromBytes", "iand", "insert-evicted"])
         if opname == "insert":
             op = ["insert", rng.choice([1, 2 * nkeys + 1, nkeys | 1])]
         elif opname == "update":
@@ -66,10 +68,14 @@ def run(ctx):
                 continue
             op = ["merge", keys, 2 * nkeys + 1, 2 * nkeys + 3]
             kind = rng.choice(["Bucket", "Set"])
+        elif opname == "insert-evicted":
+            if kind not in ("BTree", "TreeSet"):
+                continue
+            op = ["insert-evicted", 2 * nkeys + 1 if forced else rng.choice([1, 2 * nkeys + 1, nkeys | 1])]     # grid: append (splits along the right edge)
         elif opname == "fromBytes":
             if fn != "fs":
                 continue
-            cnt = rng.choice([1, 5, 40])
+            cnt = forced_n or rng.choice([1, 5, 40])
             op = ["fromBytes", ("ab" * cnt) + ("vvvvvv" * cnt)]
             kind = "Bucket"
         else:
